@@ -66,8 +66,10 @@ Definition acls_match (t : tree) (a : app) (p : list str) (obs : list (bool * bo
                              check_admin_rev t (ap_user a) (ap_groups a) (rev pre))) (prefixes_from [] p))
            obs.
 
-(* one application: model step from the OBSERVED state before it, oracles on the observed result *)
-Definition step_check (pinned : bool) (t0 : tree) (rules : list rule) (before : list qsnap) (s : pstep) : list N :=
+(* one application: model step from the OBSERVED state before it, oracles on the observed result.
+   [rules] are the rules of the model under test, [srules] those of the specification (always the
+   repaired semantics). *)
+Definition step_check (pinned : bool) (t0 : tree) (rules srules : list rule) (before : list qsnap) (s : pstep) : list N :=
   let w := mkW (tree_of_snap t0 before) rules in
   let '(o, w') := submit pinned w (st_app s) in
   let corr := obs_eqb o (st_obs s) && snap_matches (w_tree w') (st_after s)
@@ -75,37 +77,39 @@ Definition step_check (pinned : bool) (t0 : tree) (rules : list rule) (before : 
                  | OAcc p, Some a' => acls_match (tree_of_snap t0 (st_after s)) a' p (st_acls s)
                  | _, _ => true
                  end in
-  let wa := mkW (tree_of_snap t0 (st_after s)) rules in
+  let ws := mkW (tree_of_snap t0 before) srules in
+  let wa := mkW (tree_of_snap t0 (st_after s)) srules in
   (if corr then [] else [1]) ++
   match convert_ugi (st_app s) with
-  | None => []
+  | None => match st_obs s with OCrash => [4] | _ => [] end
   | Some a' =>
       match st_obs s with
       | OAcc p =>
-          (if placed_ok_b w a' p wa then [] else [2]) ++
+          (if placed_ok_b ws a' p wa then [] else [2]) ++
           (if recovery_only_forced_b a' p then [] else [3]) ++
-          (if unmatched_b w a' then [4] else [])
+          (if unmatched_b ws a' then [4] else [])
       | ORej c =>
-          if unmatched_b w a' then (if (c =? 0) && snap_matches (w_tree w) (st_after s) then [] else [4]) else []
-      | OCrash => []
+          if unmatched_b ws a' then (if (c =? 0) && snap_matches (w_tree ws) (st_after s) then [] else [4]) else []
+      | OCrash => [4]      (* neither accepted nor rejected with a reason *)
       end
   end.
 
-Fixpoint steps_check (pinned : bool) (t0 : tree) (rules : list rule) (before : list qsnap) (l : list pstep) : list N :=
+Fixpoint steps_check (pinned : bool) (t0 : tree) (rules srules : list rule) (before : list qsnap) (l : list pstep) : list N :=
   match l with
   | [] => []
-  | s :: r => step_check pinned t0 rules before s ++ steps_check pinned t0 rules (st_after s) r
+  | s :: r => step_check pinned t0 rules srules before s ++ steps_check pinned t0 rules srules (st_after s) r
   end.
 
 Definition case_check (pinned : bool) (c : pcase) : list N :=
-  match init_world pinned (c_re c) (c_root c) (c_ops c) (c_rules c) (c_via c) with
-  | None => if c_loaded c then [1] else []
-  | Some w =>
+  match init_world pinned (c_re c) (c_root c) (c_ops c) (c_rules c) (c_via c),
+        init_world false (c_re c) (c_root c) (c_ops c) (c_rules c) (c_via c) with
+  | Some w, Some ws =>
       if negb (c_loaded c) then [1]
       else
         (* ACLs come from the hierarchy as loaded (set-up operations do not touch them) *)
         (if snap_matches (w_tree w) (c_snap0 c) then [] else [1]) ++
-        steps_check pinned (w_tree w) (w_rules w) (c_snap0 c) (c_steps c)
+        steps_check pinned (w_tree w) (w_rules w) (w_rules ws) (c_snap0 c) (c_steps c)
+  | _, _ => if c_loaded c then [1] else []
   end.
 
 Fixpoint indexed {A} (i : N) (l : list A) : list (N * A) :=
